@@ -266,6 +266,16 @@ def cross_placements(job):
     return res
 
 
+def _zoo_seq_job(job):
+    (n1, e1_), (n2, e2_), a, b = job
+    from .props_strings import tucan_of
+    from tucan.io import graph_from_molfile_text
+
+    sa = tucan_of(graph_from_molfile_text(G.render_v3000(n1, [C] * n1, e1_)))
+    sb = tucan_of(graph_from_molfile_text(G.render_v3000(n2, [C] * n2, e2_)))
+    return sa, sb
+
+
 def corpus_seeds(tier):
     """Corpus molfiles as seeds: (name, n, cols, edges). Imported through the library reader (any molecule is a
     legitimate seed); relabelled descriptions are rendered by my renderer."""
@@ -394,6 +404,14 @@ def run_all(rep, prop, tier):
                         owner[s] = (name, text)
         if prop == "C02":
             rep.add(zoo_distinct_strings=len(owner))
+            seqs = [(a, b) for grp in NEAR_MISS_GROUPS for a in grp for b in grp if a != b and a in S and b in S]
+            nseq = 0
+            for job, (sa, sb) in pmap(_zoo_seq_job, [(S[a], S[b], a, b) for a, b in seqs]):
+                nseq += 1
+                if sa == sb:
+                    rep.violation("C02|zoo|pair-in-sequence", {"kind": "zoo-sequence", "n": job[1][0], "seed_a": job[2], "seed_b": job[3],
+                                                               "summary": f"{job[2]} then {job[3]} canonicalized in sequence share {sa[:100]!r}"})
+            rep.add(zoo_near_miss_pairs_in_sequence=nseq)
     if prop in ("C01", "C04", "C13"):
         cj = [(props, name, n, cols, edges, n <= 30) for name, n, cols, edges in corpus_seeds(tier)]
         cj.sort(key=lambda j: -j[2])
